@@ -67,6 +67,20 @@ def series_tokens(rows):
     return '%d %d %s' % (k, n, ' '.join(f2h(v) for r in rows for v in r)) if k and n else '%d %d' % (k, n)
 
 
+ILL = {'accepted': 0, 'max_amplification': 0.0, 'perturbed_model_runs': 0}
+
+
+def cond_accept(drv, cs, make_line, parser, impl_results, model_results):
+    """hslib.rr_conditioned (measured sensitivity over several perturbed model runs) with bookkeeping for the evidence"""
+    info = {}
+    d = rr_conditioned(drv, cs, make_line, parser, impl_results, model_results, info=info)
+    if d is None:
+        ILL['accepted'] += 1
+        ILL['max_amplification'] = max(ILL['max_amplification'], info.get('amplification', 0.0))
+        ILL['perturbed_model_runs'] += info.get('perturbed_runs', 0)
+    return d
+
+
 def purity_line(cs, alt, truncs, others):
     parts = ['PURITY', cs['model'], case_tokens(cs), 'ALT', series_tokens(alt), 'TRUNCS', str(len(truncs))] + [str(t) for t in truncs]
     parts += ['OTHERS', str(len(others))]
@@ -251,7 +265,7 @@ def main():
         ri, rm = parse_kresult(li), parse_kresult(lm)
         st['model_runs_compared'] += 1
         d = agree(cs, ri, rm)
-        if d and rr_conditioned(drv, cs, kline, lambda l: [parse_kresult(l)], [ri], [rm]) is not None:
+        if d and cond_accept(drv, cs, kline, lambda l: [parse_kresult(l)], [ri], [rm]) is not None:
             c.corr_broken.append({'model': cs['model'], 'diff': d, 'line': line[:3000]})
         if ri[0] == 'OK':
             st['returning'] += 1
@@ -340,7 +354,7 @@ def main():
         ri = parse_kresult(cs['parts'][k])
         stats[cs['model']]['model_runs_compared'] += 1
         d = agree(cs, ri, rm)
-        if d and rr_conditioned(drv, cs, (lambda pc: kline(pc, upto=t)) if kind == 'truncated' else
+        if d and cond_accept(drv, cs, (lambda pc: kline(pc, upto=t)) if kind == 'truncated' else
                                 (lambda pc: kline(pc, inputs=[a[:t] + b[t:] for a, b in zip(pc['inputs'], cs['alt'])])),
                                 lambda l: [parse_kresult(l)], [ri], [rm]) is not None:
             c.corr_broken.append({'model': cs['model'], 'diff': '%s at t=%d: %s' % (kind, t, d), 'line': line[:3000]})
@@ -420,7 +434,7 @@ def main():
             st['model_runs_compared'] += 1
             rm = parse_kresult(lmod[i])
             d = agree(cs, ri, rm)
-            if d and rr_conditioned(drv, cs, kline, lambda l: [parse_kresult(l)], [ri], [rm]) is not None:
+            if d and cond_accept(drv, cs, kline, lambda l: [parse_kresult(l)], [ri], [rm]) is not None:
                 c.corr_broken.append({'model': m, 'diff': 'long run: ' + d, 'line': lk[i][:2000]})
         if ri[0] != 'OK':
             continue
@@ -487,7 +501,7 @@ def main():
                      'and one long run of every other stateful model through the same six purity situations and truncated at / '
                      'tail-replaced after t = 1, 150, 416, 417, 1000 and n-1; non-trivial = the reference run has at least one non-zero output; '
                      'distinct by (model, parameters, states, inputs, situation or (kind, t))')
-    c.finish(extra_cov={'per_model': stats, 'models': len(stats), 'series_length': N, 'exhaustive': False,
+    c.finish(extra_cov={'rr_ill_conditioned_model_vs_code': ILL, 'per_model': stats, 'models': len(stats), 'series_length': N, 'exhaustive': False,
                         'cases_rerun_without_tail_replacement_after_a_process_crash': fallback,
                         'truncation_points_per_case': len(truncs), 'large_cases': large_stats,
                         'purity_situations': SITUATIONS + REINIT_SITUATIONS + ['earlier-results-stay-intact', 'other-process'],
